@@ -462,7 +462,7 @@ theorem StreamEnc.code_check (E : Env σ) : ∀ (fuel : Nat) (s : StreamEnc σ) 
       · split
         · rfl
         · exact ih _ _ _
-    | blockHeader => simp only
+    | blockHeader => simp only; exact ih _ _ _
     | blockEncode =>
       simp only
       generalize BlockEnc.code E (E.codec s.records.length) s.block inp (convert a) = r
